@@ -110,17 +110,21 @@ Proof.
   { intros kind H. apply put_op_in in H as [->|H]; [right|left; exact H].
     unfold op_id, ev_id, ev_key, mk_oper. simpl. auto. }
   destruct (e_kind e =? OP_INS) eqn:EI; simpl.
-  - intro H. apply G in H as [H|[H1 [H2 [H3 H4]]]]; [auto|]. right. repeat split; auto.
-    + intro Hd. exfalso. rewrite Hd in H4. destruct (existsb _ ops); unfold OP_DEL, OP_UPD, OP_INS in H4; lia.
+  - intro H. apply G in H as [H|[H1 [H2 [H3 H4]]]]; [auto|]. right.
+    split; [reflexivity|]. split; [exact H1|]. split; [exact H2|]. split; [exact H3|]. split.
+    + intro Hd. exfalso. rewrite Hd in H4.
+      destruct (existsb (same_op (e_cls e) (key_of cc (e_vals e))) ops); unfold OP_DEL, OP_UPD, OP_INS in H4; lia.
     + intros [Hn _]. apply Z.eqb_eq in EI. contradiction.
   - destruct (e_kind e =? OP_UPD) eqn:EU; simpl.
     + destruct (is_modified cc (e_colchg e) (e_relchg e) && existsb (real_change cc e) (e_cstate e)); [|auto].
-      intro H. apply G in H as [H|[H1 [H2 [H3 H4]]]]; [auto|]. right. repeat split; auto.
+      intro H. apply G in H as [H|[H1 [H2 [H3 H4]]]]; [auto|]. right.
+      split; [reflexivity|]. split; [exact H1|]. split; [exact H2|]. split; [exact H3|]. split.
       * intro Hd. exfalso. rewrite Hd in H4. unfold OP_DEL, OP_UPD in H4. lia.
       * intros [_ Hn]. apply Z.eqb_eq in EU. contradiction.
-    + intro H. apply G in H as [H|[H1 [H2 [H3 H4]]]]; [auto|]. right. repeat split; auto.
-      * intros _. apply Z.eqb_neq in EI. exact EI.
-      * apply Z.eqb_neq in EU. exact EU.
+    + intro H. apply G in H as [H|[H1 [H2 [H3 H4]]]]; [auto|]. right.
+      split; [reflexivity|]. split; [exact H1|]. split; [exact H2|]. split; [exact H3|]. split.
+      * intros _. split; [apply Z.eqb_neq; exact EI | apply Z.eqb_neq; exact EU].
+      * intros _. exact H4.
 Qed.
 
 Lemma fold_track_in g : forall ents ops x,
@@ -157,8 +161,8 @@ Proof.
   inversion ND as [|? ? Hn ND']; subst. constructor.
   - intro Hin. apply in_map_iff in Hin as [o' [E Ho']]. apply Hn.
     assert (op_id o' = op_id o).
-    { unfold op_id at 2. apply vk_inj; [exact F | apply V; right; exact Ho' | apply V; left; reflexivity|].
-      exact E. }
+    { unfold op_id at 2. apply (vk_inj g o' (op_cls o) (op_key o) F);
+        [apply V; right; exact Ho' | apply V; left; reflexivity | exact E]. }
     rewrite <- H. apply in_map. exact Ho'.
   - apply IH; [intros x Hx; apply V; right; exact Hx | exact ND'].
 Qed.
@@ -183,4 +187,476 @@ Proof.
   split; [exact Hr'|]. split; [congruence|].
   intros x' Hx' Hxk. destruct (Hb x' Hx' Hxk) as [x [Hx [V1 [V2 _]]]].
   rewrite V2, U2. apply Hmax; [exact Hx | congruence].
+Qed.
+
+Definition c01_some (vt : vtable) (K : pk) (d : list val) : Prop :=
+  exists r, newest vt K r /\ vop r <> OP_DEL /\ vdat r = d.
+Definition c01_none (vt : vtable) (K : pk) : Prop :=
+  (forall r, In r vt -> vkey r <> K) \/ (exists r, newest vt K r /\ vop r = OP_DEL).
+
+Lemma c01_rel_unfold g live vt c k :
+  c01_rel g live vt c k <->
+  match find_live live c k with
+  | Some l => c01_some vt (k_tab (cls_of g c) :: k) (dat_of (cls_of g c) (l_vals l))
+  | None => c01_none vt (k_tab (cls_of g c) :: k)
+  end.
+Proof. unfold c01_rel, c01_some, c01_none. destruct (find_live live c k); reflexivity. Qed.
+
+Definition transfers (vt vt' : vtable) (K : pk) : Prop :=
+  (forall x, In x vt -> vkey x = K -> exists x', In x' vt' /\ upto_end x x') /\
+  (forall x', In x' vt' -> vkey x' = K -> exists x, In x vt /\ upto_end x x').
+
+Lemma c01_some_transfer vt vt' K d : transfers vt vt' K -> c01_some vt K d -> c01_some vt' K d.
+Proof.
+  intros [Hf Hb] [r [Hn [Ho Hd]]]. destruct (newest_transfer vt vt' K r Hf Hb Hn) as [r' [Hn' [_ [_ [U3 U4]]]]].
+  exists r'. split; [exact Hn'|]. split; congruence.
+Qed.
+
+Lemma c01_none_transfer vt vt' K : transfers vt vt' K -> c01_none vt K -> c01_none vt' K.
+Proof.
+  intros [Hf Hb] [H|[r [Hn Ho]]].
+  - left. intros r' Hr' Hk. destruct (Hb r' Hr' Hk) as [x [Hx [U1 _]]]. apply (H x Hx). congruence.
+  - right. destruct (newest_transfer vt vt' K r Hf Hb Hn) as [r' [Hn' [_ [_ [U3 _]]]]].
+    exists r'. split; [exact Hn' | congruence].
+Qed.
+
+Lemma transfers_refl vt K : transfers vt vt K.
+Proof. split; intros x Hx _; exists x; split; [exact Hx | apply upto_end_refl | exact Hx | apply upto_end_refl]. Qed.
+
+Lemma track_untracked g ops e : tracked g e = false -> track g ops e = ops.
+Proof.
+  unfold tracked, track. destruct (k_versioned (cls_of g (e_cls e))); simpl; [|reflexivity].
+  destruct (e_kind e =? OP_INS); simpl; [discriminate|].
+  destruct (e_kind e =? OP_UPD); simpl; [|discriminate].
+  intro H. rewrite H. reflexivity.
+Qed.
+
+Lemma fold_track_untracked g ents ops :
+  (forall e, In e ents -> tracked g e = false) -> fold_left (track g) ents ops = ops.
+Proof.
+  revert ops. induction ents as [|e ents IH]; intros ops H; simpl; [reflexivity|].
+  rewrite track_untracked by (apply H; left; reflexivity). apply IH. intros; apply H; right; assumption.
+Qed.
+
+Lemma val_eq_dec (a b : val) : {a = b} + {a <> b}.
+Proof. decide equality. apply Z.eq_dec. Qed.
+
+(* an untracked event of a versioned class is an update that leaves the versioned data alone *)
+Lemma untracked_is_quiet_update g live objs ents e :
+  flush_wf g live objs ents -> In e ents -> k_versioned (cls_of g (e_cls e)) = true ->
+  tracked g e = false ->
+  e_kind e <> OP_DEL /\
+  exists old, find_live live (e_cls e) (ev_key g e) = Some old /\
+              dat_of (cls_of g (e_cls e)) (e_vals e) = dat_of (cls_of g (e_cls e)) (l_vals old).
+Proof.
+  intros WF He Hver Ht.
+  assert (Hk : e_kind e = OP_UPD).
+  { unfold tracked in Ht. rewrite Hver in Ht. simpl in Ht.
+    destruct (e_kind e =? OP_INS) eqn:EI; simpl in Ht; [discriminate|].
+    destruct (e_kind e =? OP_UPD) eqn:EU; simpl in Ht; [apply Z.eqb_eq; exact EU | discriminate]. }
+  split; [rewrite Hk; unfold OP_UPD, OP_DEL; lia|].
+  destruct (fw_upd _ _ _ _ WF e He Hk Hver) as [old [Hold Hdiff]].
+  exists old. split; [exact Hold|].
+  destruct (list_eq_dec val_eq_dec (dat_of (cls_of g (e_cls e)) (e_vals e)) (dat_of (cls_of g (e_cls e)) (l_vals old))) as [E|N];
+    [exact E|]. specialize (Hdiff N). congruence.
+Qed.
+
+(* ------------------------------------------------------------------ one flush *)
+Section FlushC01.
+  Variables (g : cfg) (s : state) (objs : list obj_st) (ents : list ent_ev) (assoc : list assoc_ev).
+  Hypothesis CC : cfg_consistent g.
+  Hypothesis FL : flat_cfg g.
+  Hypothesis Hv : g_versioning g = true.
+  Hypothesis Hn : g_native g = false.
+  Hypothesis IA : InvAll g s.
+  Hypothesis I3 : Inv3 g s.
+  Hypothesis I4 : Inv4 g s.
+  Hypothesis WF : flush_wf g (d_live (s_db s)) objs ents.
+
+  Let s1 := before_flush g s objs.
+  Let ops' := fold_left (track g) ents (u_ops (s_uow s1)).
+  Let s' := flush g s objs ents assoc.
+
+  Lemma ops'_valid : ops_valid g ops'.
+  Proof.
+    intros o Ho. unfold ops' in Ho. apply fold_track_in in Ho as [Ho|[e [He [_ [Hid _]]]]].
+    - destruct I3 as [_ [V _]]. apply V. destruct (before_flush_same g s objs) as [_ [_ [E _]]].
+      fold s1 in E. rewrite <- E. exact Ho.
+    - unfold op_id, ev_id in Hid. inversion Hid as [[E1 E2]]. rewrite E1. apply (fw_cls _ _ _ _ WF e He).
+  Qed.
+
+  Lemma ops'_nodup : NoDup (map op_id ops').
+  Proof.
+    unfold ops'. apply fold_track_nodup. destruct (before_flush_same g s objs) as [_ [_ [E _]]].
+    fold s1 in E. rewrite E. apply I3.
+  Qed.
+
+  Lemma no_tracked_ops' : (forall e, In e ents -> tracked g e = false) -> ops' = u_ops (s_uow s).
+  Proof.
+    intro H. unfold ops'. rewrite fold_track_untracked by exact H.
+    destruct (before_flush_same g s objs) as [_ [_ [E _]]]. exact E.
+  Qed.
+
+  Lemma cur_none_no_tracked :
+    u_cur (s_uow s1) = None -> forall e, In e ents -> tracked g e = false.
+  Proof.
+    intros Hc e He. destruct (tracked g e) eqn:T; [|reflexivity]. exfalso.
+    destruct (before_flush_same g s objs) as [_ [_ [_ Hiff]]]. fold s1 in Hiff.
+    apply Hiff in Hc as [_ Hm].
+    rewrite (fw_mod _ _ _ _ WF) in Hm; [discriminate|]. exists e. auto.
+  Qed.
+
+  Theorem flush_Inv3 : Inv3 g s'.
+  Proof.
+    destruct (flush_shape g s objs ents assoc Hv Hn) as [_ [Ecur Hshape]].
+    fold s1 ops' s' in Ecur, Hshape.
+    unfold Inv3. destruct (u_cur (s_uow s1)) as [T|] eqn:C.
+    - destruct Hshape as [_ Eops]. rewrite Eops, Ecur.
+      assert (Eid : map op_id (map mark_proc ops') = map op_id ops') by (rewrite map_map; reflexivity).
+      split; [rewrite Eid; apply ops'_nodup|]. split; [|split; [discriminate|]].
+      + intros o Ho. apply in_map_iff in Ho as [o0 [<- Ho0]]. simpl. apply ops'_valid; exact Ho0.
+      + intros o Ho. apply in_map_iff in Ho as [o0 [<- _]]. reflexivity.
+    - destruct Hshape as [_ Eops]. rewrite Eops, Ecur.
+      pose proof (no_tracked_ops' (cur_none_no_tracked C)) as E0.
+      destruct (before_flush_same g s objs) as [_ [_ [_ Hiff]]]. fold s1 in Hiff.
+      apply Hiff in C as [C0 _]. destruct I3 as [_ [_ [Hnone _]]].
+      rewrite E0, (Hnone C0). repeat split; try constructor; try contradiction; auto.
+      intros o [].
+  Qed.
+
+  (* rows of an entity that has no tracked event in this flush are not targeted *)
+  Lemma untargeted T c k r :
+    (c < length (g_classes g))%nat ->
+    (forall e, In e ents -> tracked g e && is_ev g c k e = false) ->
+    vkey r = k_tab (cls_of g c) :: k -> ~ targeted g T ops' r.
+  Proof.
+    intros Hc Hno Hk [o [Ho [Hp [E _]]]].
+    assert (Hid : op_id o = (c, k)).
+    { apply (vk_inj g o c k FL); [apply ops'_valid; exact Ho | exact Hc | congruence]. }
+    unfold ops' in Ho. apply fold_track_in in Ho as [Ho|[e [He [Ht [Hide _]]]]].
+    - destruct I3 as [_ [_ [_ Hproc]]]. destruct (before_flush_same g s objs) as [_ [_ [E0 _]]].
+      fold s1 in E0. rewrite E0 in Ho. rewrite (Hproc o Ho) in Hp. discriminate.
+    - specialize (Hno e He). rewrite Ht in Hno. simpl in Hno.
+      assert (is_ev g c k e = true) by (apply is_ev_spec; congruence). congruence.
+  Qed.
+
+  Lemma acc0_ok T :
+    u_cur (s_uow s1) = Some T ->
+    In T (d_tx (s_db s1)) /\
+    acc_ok g T (d_tx (s_db s1)) (d_vt (s_db s1), u_vobjs (s_uow s1), s_err s1) /\
+    NoDup (map (vk g) (unproc ops')).
+  Proof.
+    intro C.
+    destruct (before_flush_all g s objs IA) as [[[V _] [_ [HcurI _]]] [[Hdb [Hcm [VI [Hcache Herr]]]] _]].
+    fold s1 in V, HcurI, Hdb, Hcm, VI, Hcache, Herr.
+    destruct (HcurI T C) as [HT Hmax].
+    split; [exact HT|]. split.
+    - split; [exact Hdb|]. split; [intros r Hr; apply Hmax, V, Hr|].
+      split; [exact (Hcache T C)|]. split; [exact VI | exact Herr].
+    - unfold unproc. apply nodup_filter. apply vk_nodup; [exact FL | exact ops'_valid | exact ops'_nodup].
+  Qed.
+
+  (* an entity without a tracked event keeps its rows, up to end columns *)
+  Lemma transfers_untouched c k :
+    (c < length (g_classes g))%nat ->
+    (forall e, In e ents -> tracked g e && is_ev g c k e = false) ->
+    transfers (d_vt (s_db s)) (d_vt (s_db s')) (k_tab (cls_of g c) :: k).
+  Proof.
+    intros Hc Hno.
+    destruct (flush_shape g s objs ents assoc Hv Hn) as [_ [_ Hshape]].
+    fold s1 ops' s' in Hshape.
+    destruct (before_flush_same g s objs) as [Evt1 _]. fold s1 in Evt1.
+    destruct (u_cur (s_uow s1)) as [T|] eqn:C.
+    - destruct Hshape as [Evt' _]. destruct (acc0_ok T C) as [HT [A0 NDk]].
+      destruct (fold_rows g T (d_tx (s_db s1)) ops' _ CC HT A0 NDk) as [_ [F2 F3]].
+      cbn [fst] in F2, F3. rewrite <- Evt' in F2, F3. rewrite Evt1 in F2, F3.
+      split.
+      + intros x Hx Hxk. apply F2; [exact Hx|]. apply (untargeted T c k x Hc Hno Hxk).
+      + intros x' Hx' Hxk'. destruct (F3 x' Hx') as [[o [Ho [Hp [R1 [R2 _]]]]]|[x [Hx [U _]]]].
+        * exfalso. apply (untargeted T c k x' Hc Hno Hxk'). exists o. auto.
+        * exists x. auto.
+    - destruct Hshape as [Evt' _]. rewrite Evt', Evt1. apply transfers_refl.
+  Qed.
+
+  Lemma nodup_ev_unique e e0 :
+    In e ents -> In e0 ents -> ev_id g e = ev_id g e0 -> e0 = e.
+  Proof.
+    pose proof (fw_nodup _ _ _ _ WF) as ND. revert ND. generalize ents. intro l.
+    induction l as [|a l IH]; [contradiction|]. simpl. intro ND. inversion ND as [|? ? Hni ND']; subst.
+    intros [<-|He] [<-|He0] E; auto.
+    - exfalso. apply Hni. rewrite E. apply in_map; exact He0.
+    - exfalso. apply Hni. rewrite <- E. apply in_map; exact He.
+  Qed.
+
+  Theorem flush_Inv4 : Inv4 g s'.
+  Proof.
+    destruct (flush_shape g s objs ents assoc Hv Hn) as [Elive [Ecur Hshape]].
+    fold s1 ops' s' in Elive, Ecur, Hshape.
+    intros c k Hc Hver. apply c01_rel_unfold. rewrite Elive.
+    pose proof (proj1 (c01_rel_unfold g _ _ c k) (I4 c k Hc Hver)) as Hold.
+    set (cc := cls_of g c) in *. set (K := k_tab cc :: k) in *.
+    assert (Hsw : forall e, In e ents -> (e_kind e =? OP_UPD) && e_isnew e = false)
+      by (apply (fw_switch _ _ _ _ WF)).
+    (* is there an event for (c,k) in this flush? *)
+    destruct (find (is_ev g c k) ents) as [e|] eqn:Fe.
+    - apply find_some in Fe as [He Hev].
+      assert (Hec : e_cls e = c /\ ev_key g e = k).
+      { apply is_ev_spec in Hev. unfold ev_id in Hev. inversion Hev. auto. }
+      destruct Hec as [Hec Hek].
+      rewrite (fold_live_one g c k ents _ e Hsw (fw_nodup _ _ _ _ WF) He Hev).
+      destruct (tracked g e) eqn:Ht.
+      + (* tracked: the row at the current transaction is written *)
+        assert (Hcur : exists T, u_cur (s_uow s1) = Some T).
+        { destruct (u_cur (s_uow s1)) eqn:C; [eauto|]. rewrite (cur_none_no_tracked C e He) in Ht. discriminate. }
+        destruct Hcur as [T C]. rewrite C in Hshape. destruct Hshape as [Evt' _].
+        destruct (acc0_ok T C) as [HT [A0 NDk]].
+        destruct (fold_rows g T (d_tx (s_db s1)) ops' _ CC HT A0 NDk) as [F1 _].
+        pose proof (fold_process_ok g T (d_tx (s_db s1)) ops' _ CC HT A0) as A1.
+        destruct (fold_left (process_op g T) ops' (d_vt (s_db s1), u_vobjs (s_uow s1), s_err s1))
+          as [[vtr vobjsr] errr] eqn:Ef.
+        simpl in F1, Evt'. destruct A1 as [_ [LE' _]].
+        destruct (fold_track_one g c k ents (u_ops (s_uow s1)) e (fw_nodup _ _ _ _ WF) He Hev Ht
+                    (fw_kind _ _ _ _ WF e He)) as [kind [Hop Hdel]].
+        fold ops' in Hop. unfold op_at in Hop. apply find_some in Hop as [Hoin _].
+        set (o := mk_oper (cls_of g (e_cls e)) e kind) in *.
+        destruct (F1 o Hoin eq_refl) as [r [Hr [R1 [R2 [R3 R4]]]]].
+        assert (RK : vkey r = K).
+        { rewrite R1. unfold vk, o, mk_oper. simpl. unfold K, cc. rewrite Hec. f_equal.
+          unfold ev_key in Hek. rewrite Hec in Hek. exact Hek. }
+        assert (Hnew : newest (d_vt (s_db s')) K r).
+        { rewrite Evt'. split; [exact Hr|]. split; [exact RK|].
+          intros r' Hr' _. rewrite R2. apply LE'; exact Hr'. }
+        destruct (e_kind e =? OP_DEL) eqn:ED.
+        * right. exists r. split; [exact Hnew|]. rewrite R3. unfold o, mk_oper; simpl.
+          apply Hdel. apply Z.eqb_eq; exact ED.
+        * exists r. split; [exact Hnew|]. split.
+          -- rewrite R3. unfold o, mk_oper; simpl. intro Hd. apply Hdel in Hd.
+             apply Z.eqb_neq in ED. contradiction.
+          -- rewrite R4. unfold op_dat, o, mk_oper. simpl.
+             assert (Hkd : (kind =? OP_DEL) = false).
+             { apply Z.eqb_neq. intro Hd. apply Hdel in Hd. apply Z.eqb_neq in ED. contradiction. }
+             rewrite Hkd, andb_false_r. rewrite Hec. reflexivity.
+      + (* untracked: a quiet update; the rows of the entity are untouched up to end *)
+        assert (Hver' : k_versioned (cls_of g (e_cls e)) = true) by (rewrite Hec; exact Hver).
+        destruct (untracked_is_quiet_update g _ objs ents e WF He Hver' Ht) as [Hnd [old [Hfo Hsame]]].
+        rewrite Hec, Hek in Hfo. rewrite Hec in Hsame. fold cc in Hsame.
+        assert (ED : (e_kind e =? OP_DEL) = false) by (apply Z.eqb_neq; exact Hnd).
+        rewrite ED. simpl. rewrite Hfo in Hold. rewrite Hsame.
+        assert (Htr : transfers (d_vt (s_db s)) (d_vt (s_db s')) K).
+        { apply transfers_untouched; [exact Hc|].
+          intros e0 He0. destruct (tracked g e0 && is_ev g c k e0) eqn:X; [|reflexivity]. exfalso.
+          apply andb_true_iff in X as [X1 X2].
+          assert (e0 = e).
+          { apply nodup_ev_unique; [exact He | exact He0|].
+            apply is_ev_spec in X2. apply is_ev_spec in Hev. congruence. }
+          subst e0. congruence. }
+        exact (c01_some_transfer _ _ K _ Htr Hold).
+    - (* no event for (c,k) *)
+      assert (Hno0 : forall e0, In e0 ents -> is_ev g c k e0 = false) by (apply find_none; exact Fe).
+      rewrite (fold_live_none g c k ents _ Hsw Hno0).
+      assert (Htr : transfers (d_vt (s_db s)) (d_vt (s_db s')) K).
+      { apply transfers_untouched; [exact Hc|]. intros e0 He0. rewrite (Hno0 e0 He0). apply andb_false_r. }
+      destruct (find_live (d_live (s_db s)) c k).
+      + exact (c01_some_transfer _ _ K _ Htr Hold).
+      + exact (c01_none_transfer _ _ K Htr Hold).
+  Qed.
+End FlushC01.
+
+(* ------------------------------------------------------------------ whole traces *)
+Fixpoint trace_wf (g : cfg) (s : state) (evs : list ev) : Prop :=
+  match evs with
+  | [] => True
+  | e :: evs' =>
+      match e with
+      | Flush objs ents _ => flush_wf g (d_live (s_db s)) objs ents
+      | ManualTx => False
+      | _ => True
+      end /\ trace_wf g (step g s e) evs'
+  end.
+
+Definition Inv4c (g : cfg) (s : state) : Prop :=
+  forall c k, (c < length (g_classes g))%nat -> k_versioned (cls_of g c) = true ->
+    c01_rel g (d_live (s_committed s)) (d_vt (s_committed s)) c k.
+
+Definition J (g : cfg) (s : state) : Prop := InvAll g s /\ Inv3 g s /\ Inv4 g s /\ Inv4c g s.
+
+Lemma J_init g : J g state0.
+Proof.
+  split; [apply InvAll_init|]. split; [|split].
+  - unfold Inv3; simpl. repeat split; try constructor; try contradiction; auto. intros o [].
+  - intros c k _ _. unfold c01_rel; simpl. left. intros r [].
+  - intros c k _ _. unfold c01_rel; simpl. left. intros r [].
+Qed.
+
+Lemma flush_committed g s objs ents assoc :
+  g_versioning g = true -> s_committed (flush g s objs ents assoc) = s_committed s.
+Proof.
+  intro Hv. destruct (flush_unfold g s objs ents assoc Hv) as [_ [_ E]]. rewrite E.
+  unfold before_flush. destruct (existsb (obj_modified g) objs); [|reflexivity].
+  destruct (u_cur (s_uow s)); reflexivity.
+Qed.
+
+Lemma step_J g s e :
+  cfg_consistent g -> flat_cfg g -> g_versioning g = true -> g_native g = false ->
+  J g s -> trace_wf g s [e] -> J g (step g s e).
+Proof.
+  intros CC FL Hv Hn [IA [I3 [I4 I4c]]] [Hwf _]. destruct e as [objs ents assoc| | |]; simpl.
+  - split; [apply flush_all; assumption|]. split; [apply flush_Inv3; assumption|].
+    split; [apply flush_Inv4; assumption|].
+    unfold Inv4c. rewrite flush_committed by exact Hv. exact I4c.
+  - split; [apply (step_all g s Commit CC IA)|]. split; [|split; exact I4].
+    unfold Inv3; simpl. repeat split; try constructor; try contradiction; auto. intros o [].
+  - split; [apply (step_all g s Rollback CC IA)|]. split; [|split; exact I4c].
+    unfold Inv3; simpl. repeat split; try constructor; try contradiction; auto. intros o [].
+  - contradiction.
+Qed.
+
+Theorem run_J g : forall evs s,
+  cfg_consistent g -> flat_cfg g -> g_versioning g = true -> g_native g = false ->
+  J g s -> trace_wf g s evs -> J g (fold_left (step g) evs s).
+Proof.
+  induction evs as [|e evs IH]; intros s CC FL Hv Hn HJ Hwf; simpl; [exact HJ|].
+  destruct Hwf as [H1 H2]. apply IH; try assumption.
+  apply step_J; try assumption. simpl. auto.
+Qed.
+
+(* C01 for every reachable state of every well-formed trace *)
+Theorem reachable_c01 g evs :
+  cfg_consistent g -> flat_cfg g -> g_versioning g = true -> g_native g = false ->
+  trace_wf g state0 evs ->
+  forall c k, (c < length (g_classes g))%nat -> k_versioned (cls_of g c) = true ->
+    c01_rel g (d_live (s_db (run g evs))) (d_vt (s_db (run g evs))) c k.
+Proof.
+  intros CC FL Hv Hn Hwf. destruct (run_J g evs state0 CC FL Hv Hn (J_init g) Hwf) as [_ [_ [I4 _]]].
+  exact I4.
+Qed.
+
+(* ------------------------------------------------------------------ only tracked entities get rows *)
+Section FlushOnly.
+  Variables (g : cfg) (s : state) (objs : list obj_st) (ents : list ent_ev) (assoc : list assoc_ev).
+  Hypothesis CC : cfg_consistent g.
+  Hypothesis FL : flat_cfg g.
+  Hypothesis Hv : g_versioning g = true.
+  Hypothesis Hn : g_native g = false.
+  Hypothesis IA : InvAll g s.
+  Hypothesis I3 : Inv3 g s.
+  Hypothesis WF : flush_wf g (d_live (s_db s)) objs ents.
+
+  (* a row of the new table either has the identity (key, transaction) of an old row, or belongs to
+     an entity with a tracked event in this flush and carries the current transaction id *)
+  Theorem flush_rows_only_for_tracked r' :
+    In r' (d_vt (s_db (flush g s objs ents assoc))) ->
+    (exists r, In r (d_vt (s_db s)) /\ vkey r = vkey r' /\ vtx r = vtx r' /\ vop r = vop r' /\ vdat r = vdat r') \/
+    (exists e, In e ents /\ tracked g e = true /\
+               vkey r' = k_tab (cls_of g (e_cls e)) :: ev_key g e /\
+               u_cur (s_uow (flush g s objs ents assoc)) = Some (vtx r')).
+  Proof.
+    intro Hr'.
+    destruct (flush_shape g s objs ents assoc Hv Hn) as [_ [Ecur Hshape]].
+    destruct (before_flush_same g s objs) as [Evt1 [_ [Eops1 _]]].
+    destruct (u_cur (s_uow (before_flush g s objs))) as [T|] eqn:C.
+    - destruct Hshape as [Evt' _].
+      destruct (acc0_ok g s objs ents FL IA I3 WF T C) as [HT [A0 NDk]].
+      destruct (fold_rows g T (d_tx (s_db (before_flush g s objs))) (fold_left (track g) ents (u_ops (s_uow (before_flush g s objs)))) _ CC HT A0 NDk) as [_ [_ F3]].
+      cbn [fst] in F3. rewrite <- Evt' in F3. rewrite Evt1 in F3.
+      destruct (F3 r' Hr') as [[o [Ho [Hp [R1 [R2 _]]]]]|[r [Hr [[U1 [U2 [U3 U4]]] _]]]].
+      + right. apply fold_track_in in Ho as [Ho|[e [He [Ht [Hid _]]]]].
+        * destruct I3 as [_ [_ [_ Hproc]]]. rewrite Eops1 in Ho. rewrite (Hproc o Ho) in Hp. discriminate.
+        * exists e. split; [exact He|]. split; [exact Ht|]. split.
+          -- rewrite R1. unfold vk. unfold op_id, ev_id in Hid. inversion Hid as [[E1 E2]]. reflexivity.
+          -- rewrite Ecur, R2. reflexivity.
+      + left. exists r. repeat split; auto.
+    - destruct Hshape as [Evt' _]. rewrite Evt', Evt1 in Hr'. left. exists r'. auto.
+  Qed.
+End FlushOnly.
+
+(* ------------------------------------------------------------------ excluded columns (C13) *)
+Lemma any2_false {A B} (f : A -> B -> bool) : forall a b,
+  (forall i x y, nth_error a i = Some x -> nth_error b i = Some y -> f x y = false) -> any2 f a b = false.
+Proof.
+  induction a as [|x a IH]; intros [|y b] H; simpl; try reflexivity.
+  rewrite (H 0%nat x y eq_refl eq_refl). simpl. apply IH.
+  intros i x' y' Hx Hy. apply (H (S i)); assumption.
+Qed.
+
+(* an update whose history shows changes on excluded columns and excluded (or unversioned)
+   relationships only is not tracked: no operation, hence no version row for it *)
+Theorem excluded_only_update_untracked g e :
+  let cc := cls_of g (e_cls e) in
+  e_kind e = OP_UPD ->
+  (forall i c chg, nth_error (k_cols cc) i = Some c -> nth_error (e_colchg e) i = Some chg ->
+                   chg = true -> c_excl c = true) ->
+  (forall j r chg, nth_error (k_rels cc) j = Some r -> nth_error (e_relchg e) j = Some chg ->
+                   chg = true -> rel_versioned cc r = false) ->
+  tracked g e = false.
+Proof.
+  intros cc Hk Hc Hr. unfold tracked. fold cc. rewrite Hk.
+  assert (Hm : is_modified cc (e_colchg e) (e_relchg e) = false).
+  { unfold is_modified. apply orb_false_iff. split.
+    - apply any2_false. intros i v chg Hv Hchg. unfold ver_flags in Hv.
+      rewrite nth_error_map in Hv. destruct (nth_error (k_cols cc) i) as [c|] eqn:Ec; [|discriminate].
+      simpl in Hv. inversion Hv; subst v. destruct chg; [|apply andb_false_r].
+      rewrite (Hc i c true Ec Hchg eq_refl). reflexivity.
+    - apply any2_false. intros j r chg Hj Hchg. destruct chg; [|apply andb_false_r].
+      rewrite (Hr j r true Hj Hchg eq_refl). reflexivity. }
+  rewrite Hm. simpl. destruct (k_versioned cc); reflexivity.
+Qed.
+
+(* the same for the session-level test that decides whether a transaction record is created *)
+Theorem excluded_only_object_unmodified g o :
+  let cc := cls_of g (o_cls o) in
+  o_new o = false -> o_del o = false ->
+  (forall i c chg, nth_error (k_cols cc) i = Some c -> nth_error (o_colchg o) i = Some chg ->
+                   chg = true -> c_excl c = true) ->
+  (forall j r chg, nth_error (k_rels cc) j = Some r -> nth_error (o_relchg o) j = Some chg ->
+                   chg = true -> rel_versioned cc r = false) ->
+  obj_modified g o = false.
+Proof.
+  intros cc Hnew Hdel Hc Hr. unfold obj_modified. fold cc. rewrite Hnew, Hdel.
+  assert (Hm : is_modified cc (o_colchg o) (o_relchg o) = false).
+  { unfold is_modified. apply orb_false_iff. split.
+    - apply any2_false. intros i v chg Hv Hchg. unfold ver_flags in Hv.
+      rewrite nth_error_map in Hv. destruct (nth_error (k_cols cc) i) as [c|] eqn:Ec; [|discriminate].
+      simpl in Hv. inversion Hv; subst v. destruct chg; [|apply andb_false_r].
+      rewrite (Hc i c true Ec Hchg eq_refl). reflexivity.
+    - apply any2_false. intros j r chg Hj Hchg. destruct chg; [|apply andb_false_r].
+      rewrite (Hr j r true Hj Hchg eq_refl). reflexivity. }
+  rewrite Hm. simpl. apply andb_false_r.
+Qed.
+
+(* the stored data of a version never depends on excluded column values *)
+Fixpoint agree_on (flags : list bool) (a b : list val) : Prop :=
+  match flags, a, b with
+  | f :: flags', x :: a', y :: b' => (f = true -> x = y) /\ agree_on flags' a' b'
+  | _, [], [] => True
+  | [], _, _ => True
+  | _, _, _ => False
+  end.
+
+Lemma proj_agree flags : forall a b, agree_on flags a b -> proj flags a = proj flags b.
+Proof.
+  induction flags as [|f flags IH]; intros a b H; [destruct a, b; reflexivity|].
+  destruct a as [|x a], b as [|y b]; simpl in *; try reflexivity; try contradiction.
+  destruct H as [H1 H2]. destruct f; [rewrite (H1 eq_refl); f_equal; apply IH; exact H2 | apply IH; exact H2].
+Qed.
+
+Theorem version_data_ignores_excluded cc vals vals' :
+  (forall c, In c (k_cols cc) -> c_pk c = true -> c_excl c = false) ->
+  agree_on (ver_flags cc) vals vals' ->
+  dat_of cc vals = dat_of cc vals' /\ key_of cc vals = key_of cc vals'.
+Proof.
+  intros Hpk H. unfold dat_of, key_of. split.
+  - apply proj_agree. unfold dat_flags, ver_flags in *. clear Hpk.
+    revert vals vals' H. induction (k_cols cc) as [|c cols IH]; intros a b H; simpl in *.
+    + destruct a, b; exact I.
+    + destruct a as [|x a], b as [|y b]; try exact I; try contradiction.
+      destruct H as [H1 H2]. split; [|apply IH; exact H2].
+      intro E. apply andb_true_iff in E as [E _]. apply H1; exact E.
+  - f_equal. apply proj_agree. unfold pk_flags, ver_flags in *.
+    revert vals vals' H. induction (k_cols cc) as [|c cols IH]; intros a b H; simpl in *.
+    + destruct a, b; exact I.
+    + destruct a as [|x a], b as [|y b]; try exact I; try contradiction.
+      destruct H as [H1 H2]. split.
+      * intro E. apply H1. rewrite (Hpk c (or_introl eq_refl) E). reflexivity.
+      * apply IH; [intros c0 Hc0; apply Hpk; right; exact Hc0 | exact H2].
 Qed.
